@@ -247,3 +247,17 @@ package state
 //@   nosafety
 //@   assigns  s.logs[*], s.logSize
 //@   ensures  [log-counter-restored] s.logSize == (old(s.logSize) + 18446744073709551615) % 18446744073709551616
+
+// commit (C11): only accounts touched since the last commit (the dirty set) are written to or removed from the account trie;
+// an account that was merely read stays as it is in the trie - the one exception is a self-destructed account. The trie update
+// itself is outside.
+//@ func (*StateDB).Commit
+//@   props C11
+//@   requires s != nil
+//@   orderonly
+//@   trusted-assigns allbut(evmapp.EVMApp, gtypes.Block, gtypes.Header)
+//@   atcall deleteStateObject assert [only-touched-or-self-destructed-accounts-are-removed] arg_stateObject.suicided || isDirty
+//@   atcall updateStateObject assert [only-touched-accounts-are-written] isDirty
+//@   atcall InsertBlob assert [code-stored-only-for-touched-accounts] isDirty
+//@   loop 0 invariant true
+//@   loop 1 invariant true
